@@ -217,7 +217,14 @@ class POP(BaseModelSingleSet):
                 ["mode"],
                 ["mode"],
             ],
-            dask="allowed",
+            # The numpy routine cannot work on dask arrays without computing them:
+            # wrap it into the graph instead
+            dask="parallelized",
+            output_dtypes=[complex, complex, complex, float, float],
+            dask_gufunc_kwargs={
+                "output_sizes": {"mode": X.sizes[feature_name]},
+                "allow_rechunk": True,
+            },
         )
 
         mode_coords = np.arange(1, P.mode.size + 1)
